@@ -1,6 +1,7 @@
 import Deb822Verif.Driver.Proto
 import Deb822Verif.Model.RelSat
-/-! C12 driver: `rel.sat`, `ver.cmp` (see harness/src/sat.rs for the line format). -/
+import Deb822Verif.Model.DebVersionRaw
+/-! C12 driver: `rel.sat`, `ver.cmp`, `ver.cmpraw`, `lk.forms` (see harness/src/sat.rs for the line format). -/
 namespace Deb822Verif.Driver.Sat
 open Deb822Verif Proto Rel RelSat
 
@@ -66,8 +67,28 @@ def isCmpPanic {α} : Outcome α → Bool
 /-- the closure form: an independent way of reading the same assignment -/
 def closureOf (a : List (Str × V)) : Str → Option V := fun n => a.lookup n
 
+/-- the panic is the `parse::<i32>().unwrap()` of finding F-C12-1 (not a byte-index panic) -/
+def isI32Panic {α} : Outcome α → Bool
+  | .panic s => s.startsWith "debversion lib.rs:137"
+  | .ok _ => false
+
+def showLookup (o : Option V) : String := match o with | some v => encVersion v | none => "none"
+
 def handle (op : String) (args : List String) : Option String :=
   match op, args with
+  | "ver.cmpraw", [a, b] => do
+    -- values built literally: the byte-index twin of `Version::cmp`
+    let v ← decVersion a
+    let w ← decVersion b
+    let r := DebVersion.compareB v w
+    let c := match r with
+      | .ok .lt => "lt" | .ok .eq => "eq" | .ok .gt => "gt" | .panic _ => "PANIC"
+    pure (c ++ (if isI32Panic r then "\t!F-C12-1" else ""))
+  | "lk.forms", [asg, n] => do
+    let a ← decAssign asg
+    let n ← decStr n
+    let p := match a with | [b] => showLookup (Lookup.ofPair b n) | _ => "-"
+    pure s!"m={showLookup (Lookup.ofMap a n)} c={showLookup (Lookup.ofFn (closureOf a) n)} p={p}"
   | "ver.cmp", [a, b] => do
     let a ← decStr a
     let b ← decStr b
